@@ -319,6 +319,8 @@ def replace_cell(P, A):
     c1 = A['c1']
     k = P.get('k', 2)
     new_ids = [A['n%d' % i] for i in range(k)]
+    if P.get('repeat_id'):
+        new_ids = new_ids + [new_ids[0]]      # the replacement repeats a story ID: it is applied as sent, silently
     kids = [T('roSlug', c1), T('roEdStart', None),
             E('mosExternalMetadata', T('mosSchema', c1), E('mosPayload', T('Owner', c1)))]
     kids += [E('story', T('storyID', n), T('storySlug', c1), E('item', T('itemID', c1), x=c1), E('p', text=c1, tail=c1))
@@ -350,6 +352,8 @@ def replace_cell(P, A):
             sig = 'stories-differ'
         if sig is None and ro.completed:
             sig = 'completed'
+        if sig is None and out.warns:
+            sig = 'warned-' + '+'.join(out.cats())     # fully applied: no mosromgr warning (C06)
     if B.Ctx.replay:
         B.note(sig=sig, observed=B.conc(out.exc) if out.raised else repr(B.snap(B.rc_of(ro)))[:600],
                expected=repr(sent)[:600])
